@@ -855,7 +855,7 @@ def run(ctx: Ctx) -> None:
 
     # ---- 6. negative controls + TLC validation of everything recorded --------------------------
     controls = {}
-    src = next(c for c in trace_batch if c["kind"] == "cmd" and c["eof"] > 0)
+    src = next(c for c in trace_batch if c["kind"] == "cmd" and L(0, "eof", 0, 0, 0) in c["prep"])
     bad = copy.deepcopy(src)
     bad["eof"] = 0                                   # claims the bare prefix although it is a line
     for ln in bad["wrap"]:
